@@ -115,15 +115,69 @@ def all_found_early(r):
     return dict(cfg=cfg, insts=[], draws=[d0] * 4, events=events, end=rounds[-1] + 2 * T, rev=r.random() < 0.3, fuel=20000)
 
 
+def find_two_offers(r):
+    """ONE watched filter matched by TWO live offers (the same service from two peers, or two instances under a wildcard
+    filter); one of them ends between rounds (StopOffer / TTL expiry / reboot), the other stays: the filter stays found.
+    Another watched service is never offered, so the find phase goes on."""
+    T, MS = scen.T, scen.MS
+    rep = r.choice([2, 3, 4])
+    base = r.choice([T // 8, T // 4])
+    imin = r.choice([0, 10 * MS])
+    imax = imin + r.choice([0, 50 * MS])
+    cfg = (imin, imax, 0, 0, rep, base, 0, r.choice([1, 3]), 3, 5, None, r.choice([0, 5 * MS]))
+    d0 = r.choice([imin, imax])
+    rounds = [d0]
+    for i in range(rep):
+        rounds.append(rounds[-1] + (1 << i) * base)
+    two_peers = r.random() < 0.5
+    if two_peers:
+        flt, offers = r.choice([scen.SERVICES[0], scen.FILTERS[0], scen.FILTERS[1]]), [(1, scen.SERVICES[0]), (2, scen.SERVICES[0])]
+    else:
+        flt, offers = scen.FILTERS[0], [(1, scen.SERVICES[0]), (1, scen.SERVICES[1])]
+    regs = [(0, (1, [3, conv.s_service(flt), [0, 0]])), (0, (1, [3, conv.s_service(scen.FILTERS[5]), [0, 1]]))]
+    peers = {a: scen.Peer(a) for a in (1, 2)}
+    k = r.randrange(0, rep)
+    gone_by = r.randrange(k + 1, rep + 1)
+    lo, hi = rounds[gone_by - 1] + 1, rounds[gone_by] - 1
+    raw = []
+    victim = r.randrange(2)
+    how = r.choice(["stop", "stop", "ttl", "reboot"]) if two_peers else r.choice(["stop", "stop", "ttl"])
+    for j, (a, svc) in enumerate(offers):
+        t_on = max(1, rounds[k] - r.choice([1, base // 4, 5 * MS]) - j)
+        ttl = 0xFFFFFF
+        if j == victim and how == "ttl":
+            if lo <= t_on + T <= hi:
+                ttl = 1
+            else:
+                how = "stop"
+        raw.append((t_on, ("dg", a, [svc.create_offer_entry(ttl)])))
+    t_off = r.randrange(lo, hi + 1) if hi >= lo else lo
+    a, svc = offers[victim]
+    if how == "stop":
+        raw.append((t_off, ("dg", a, [svc.create_offer_entry(0)])))
+    elif how == "reboot":
+        raw.append((t_off, ("reboot", a, [])))
+    raw.sort(key=lambda x: x[0])
+    events = list(regs) + [(0, (1, [13]))]
+    for t, ev in raw:
+        if ev[0] == "reboot":
+            peers[ev[1]].reboot()
+        events.append((t, (0, ev[1], False, peers[ev[1]].datagram(ev[2], False))))
+    return dict(cfg=cfg, insts=[], draws=[d0] * 4, events=events, end=rounds[-1] + 2 * T, rev=r.random() < 0.3, fuel=20000)
+
+
 def run(ctx):
     r = ctx.rng
     quick = ctx.tier == "quick"
     ctx.rule = ("1-4 watched filters (with wildcards), timing grid (initial-delay window, 0-4 repetitions, base delay), offers / stop-offers / expiries for any subset at "
-                "instants around the scheduled rounds (on, +-1 tick, anywhere), incl. offers that expire again between rounds and every watched service being known before the initial round and lost again later; complete traces compared with the "
+                "instants around the scheduled rounds (on, +-1 tick, anywhere), incl. offers that expire again between rounds, one filter matched by two live offers of which one ends, and every watched service being known before the initial round and lost again later; complete traces compared with the "
                 "model; implementation trace judged by check_C13 (liveness of offers computed by the abstract TTL-store specification)")
     ctx.assumptions = ["no unwatch during the run (a filter without listeners is still searched for: observation O2, outside the domain)"]
     n = 300 if quick else 10000
     scs = stackprop.corpus_scenarios("C13") + [(all_found_early(r) if k % 4 == 1 else find_directed(r)) if k % 2 else find_scenario(r) for k in range(n)]
+    import random
+    r2 = random.Random(ctx.seed * 7919 + 13)      # a stream of its own: the scenarios above stay what they were
+    scs += [find_two_offers(r2) for _ in range(40 if quick else 1500)]
     stackprop.run_scenarios(ctx, scs, 3013, CODES, what="find client")
 
 
